@@ -235,32 +235,40 @@ fn res_cases() -> Vec<ResCase> {
             v.push(ResCase { name: "value-stack", module: m.clone(), cfg: CfgLite { stack: size, ..Default::default() }, kind: "Stackoverflow", allowed: vec![loc(0, &lit)], chain_allowed: vec![] });
         }
     }
-    // out of memory: the only allocating card is the string literal inside the loop
-    let m = module(vec![("main", func(&[], vec![sv("i", int(0)), C::Repeat { n: b(int(100000)), i: None, body: b(sg("s", s("a string literal that allocates sixty-odd bytes on every iteration....."))) }]))]);
-    for limit in [64usize, 256, 1024, 4096] {
-        v.push(ResCase { name: "memory", module: m.clone(), cfg: CfgLite { mem_limit: limit, max_instr: 10_000_000, ..Default::default() }, kind: "OutOfMemory", allowed: vec![loc(0, &[1, 1, 0])], chain_allowed: vec![] });
-    }
-    // out of memory raised by every other allocating card: the only allocating card of the loop body
-    let one = |body: C, prelude: Vec<C>| -> Module {
-        let mut cards = prelude;
-        cards.push(C::Repeat { n: b(int(1_000_000)), i: Some("i".into()), body: b(body) });
+    // out of memory with *live* data (garbage is reclaimed before the limit is reported): every
+    // iteration stores a freshly allocated object into a table that stays reachable. The cards
+    // that allocate are the producing card and the SetProperty that grows the table: one of the
+    // two has to be named. For integer values only the SetProperty / AppendTable card allocates.
+    let keep = |value: C, prelude: Vec<C>| -> Module {
+        let mut cards = vec![sg("t", C::CreateTable)];
+        cards.extend(prelude);
+        cards.push(C::Repeat { n: b(int(1_000_000)), i: Some("i".into()), body: b(C::SetProperty(b(value), b(rv("t")), b(rv("i")))) });
         module(vec![("main", func(&[], cards)), ("f", func(&[], vec![C::Return(b(int(1)))]))])
     };
-    let allocators: Vec<(&'static str, Module, Vec<u32>, &'static str)> = vec![
-        // (name, program, path of the card that has to be named, error kind)
-        ("oom-set-property", one(C::SetProperty(b(rv("i")), b(rv("t")), b(rv("i"))), vec![sv("t", C::CreateTable)]), vec![1, 1], "OutOfMemory"),
-        ("oom-append", one(C::Append(b(rv("i")), b(rv("t"))), vec![sv("t", C::CreateTable)]), vec![1, 1], "OutOfMemory"),
-        ("oom-create-table", one(sg("g", C::CreateTable), vec![sv("t", int(0))]), vec![1, 1, 0], "OutOfMemory"),
-        ("oom-closure", one(sg("g", C::Closure(vec![], vec![C::Return(b(int(1)))])), vec![sv("t", int(0))]), vec![1, 1, 0], "OutOfMemory"),
-        ("oom-function", one(sg("g", C::Function("f".into())), vec![sv("t", int(0))]), vec![1, 1, 0], "OutOfMemory"),
-        ("oom-native-function", one(sg("g", C::NativeFunction("echo".into())), vec![sv("t", int(0))]), vec![1, 1, 0], "OutOfMemory"),
-        ("oom-get-row", one(sg("g", C::Get(b(rv("t")), b(int(0)))), vec![sv("t", C::CreateTable), C::Append(b(int(1)), b(rv("t")))]), vec![2, 1, 0], "OutOfMemory"),
-        ("oom-host-alloc", one(sg("g", native("pack2", vec![int(1), int(2)])), vec![sv("t", int(0))]), vec![1, 1, 0], "TaskFailure(pack2:OutOfMemory)"),
+    let allocators: Vec<(&'static str, Module, Vec<Vec<u32>>, &'static str)> = vec![
+        // (name, program, paths of the cards that may be named, error kind)
+        ("oom-set-property", keep(rv("i"), vec![]), vec![vec![1, 1]], "OutOfMemory"),
+        ("oom-string", keep(s("a string literal that allocates sixty-odd bytes on every iteration....."), vec![]), vec![vec![1, 1, 0], vec![1, 1]], "OutOfMemory"),
+        ("oom-create-table", keep(C::CreateTable, vec![]), vec![vec![1, 1, 0], vec![1, 1]], "OutOfMemory"),
+        ("oom-closure", keep(C::Closure(vec![], vec![C::Return(b(int(1)))]), vec![]), vec![vec![1, 1, 0], vec![1, 1]], "OutOfMemory"),
+        ("oom-function", keep(C::Function("f".into()), vec![]), vec![vec![1, 1, 0], vec![1, 1]], "OutOfMemory"),
+        ("oom-native-function", keep(C::NativeFunction("echo".into()), vec![]), vec![vec![1, 1, 0], vec![1, 1]], "OutOfMemory"),
+        ("oom-get-row", keep(C::Get(b(rv("src")), b(int(0))), vec![sv("src", C::CreateTable), C::Append(b(int(1)), b(rv("src")))]), vec![vec![3, 1, 0], vec![3, 1]], "OutOfMemory"),
     ];
-    for (name, m, path, kind) in allocators {
-        // (limits large enough for the table the prelude creates: the loop card must be the one that fails)
-        for limit in [1000usize, 2000, 5000, 20000] {
-            v.push(ResCase { name, module: m.clone(), cfg: CfgLite { mem_limit: limit, max_instr: 100_000_000, ..Default::default() }, kind, allowed: vec![loc(0, &path)], chain_allowed: vec![] });
+    for (name, m, paths, kind) in allocators {
+        for limit in [2000usize, 3000, 5000, 20000] {
+            v.push(ResCase { name, module: m.clone(), cfg: CfgLite { mem_limit: limit, max_instr: 100_000_000, ..Default::default() }, kind, allowed: paths.iter().map(|p| loc(0, p)).collect(), chain_allowed: vec![] });
+        }
+    }
+    {
+        let m = module(vec![("main", func(&[], vec![sg("t", C::CreateTable), C::Repeat { n: b(int(1_000_000)), i: Some("i".into()), body: b(C::Append(b(rv("i")), b(rv("t")))) }]))]);
+        for limit in [2000usize, 5000] {
+            v.push(ResCase { name: "oom-append", module: m.clone(), cfg: CfgLite { mem_limit: limit, max_instr: 100_000_000, ..Default::default() }, kind: "OutOfMemory", allowed: vec![loc(0, &[1, 1])], chain_allowed: vec![] });
+        }
+        // allocation inside a host function: the error is a task failure of that function at the CallNative card
+        let m = module(vec![("main", func(&[], vec![sg("t", C::CreateTable), C::Repeat { n: b(int(1_000_000)), i: Some("i".into()), body: b(C::SetProperty(b(native("pack2", vec![int(1), int(2)])), b(rv("t")), b(rv("i")))) }]))]);
+        for limit in [3000usize, 20000] {
+            v.push(ResCase { name: "oom-host-alloc", module: m.clone(), cfg: CfgLite { mem_limit: limit, max_instr: 100_000_000, ..Default::default() }, kind: "*OutOfMemory", allowed: vec![loc(0, &[1, 1, 0]), loc(0, &[1, 1])], chain_allowed: vec![] });
         }
     }
     // timeout: some card of the loop (or of the callee it calls) is reported
@@ -282,7 +290,11 @@ fn run_res_case(c: &ResCase) -> Option<(String, String)> {
     let (co, prog) = realrun::compile_real(&c.module);
     let (CompileOutcome::Ok, Some(prog)) = (co, prog) else { return Some(("resource:compile".into(), format!("{}: does not compile", c.name))) };
     let got = realrun::run_program(&c.module, &prog, &natives, &RunCfg::from(&c.cfg));
-    if got.result != c.kind {
+    let kind_ok = match c.kind.strip_prefix('*') {
+        Some(k) => got.result == k || got.result.ends_with(&format!(":{k})")),
+        None => got.result == c.kind,
+    };
+    if !kind_ok {
         return Some((format!("resource:{}:kind:{}", c.name, got.result), format!("{} with {:?}: expected {}, got {}", c.name, c.cfg, c.kind, got.result)));
     }
     let t0 = got.trace.first();
@@ -319,7 +331,7 @@ impl Check for C15 {
     fn info(&self, tier: Tier) -> CheckInfo {
         let fams = families(tier);
         CheckInfo {
-            rule: "F-errinject: 5 base programs (calls at depth 0-2 with locals and arguments; three nested modules; closures and dynamic calls of script / native values with computed arguments; Repeat / ForEach / While / IfElse; table cards, dotted names and natives) x every value-producing card position x 5 injected failing expressions (missing native, wrong-type table operand, non-function callee, failing host function, PopTable of a string): trace[0] must be the location the reference interpreter reports for the card that raised the error, trace[1..] the call cards of the active chain innermost first with their namespaces, optionally followed by one entry for the program entry. F-compile-errloc: the same positions x 4 cards the compiler must reject (unknown function in Call / Function / inside a dynamic call, empty variable name): the error location must be that card. Resource errors with constructively known location: call-depth exhaustion (4 call-stack sizes), value-stack exhaustion (every stack size for 3 expression depths: the exact literal), OutOfMemory (4 limits x 9 allocating card kinds - string literal, SetProperty growth, AppendTable growth, CreateTable, Closure, Function, NativeFunction, Get row, allocation inside a host function: the only allocating card of the loop), Timeout (14 budgets: a card of the spinning loop, chain = the call card). 'states' = distinct (error location, chain) per chunk".into(),
+            rule: "F-errinject: 5 base programs (calls at depth 0-2 with locals and arguments; three nested modules; closures and dynamic calls of script / native values with computed arguments; Repeat / ForEach / While / IfElse; table cards, dotted names and natives) x every value-producing card position x 5 injected failing expressions (missing native, wrong-type table operand, non-function callee, failing host function, PopTable of a string): trace[0] must be the location the reference interpreter reports for the card that raised the error, trace[1..] the call cards of the active chain innermost first with their namespaces, optionally followed by one entry for the program entry. F-compile-errloc: the same positions x 4 cards the compiler must reject (unknown function in Call / Function / inside a dynamic call, empty variable name): the error location must be that card. Resource errors with constructively known location: call-depth exhaustion (4 call-stack sizes), value-stack exhaustion (every stack size for 3 expression depths: the exact literal), OutOfMemory with live data (string literal, CreateTable, Closure, Function, NativeFunction, Get row, host-function allocation stored into a reachable table x 4 limits: the producing card or the storing SetProperty; SetProperty / AppendTable growth with integer values: exactly that card), Timeout (14 budgets: a card of the spinning loop, chain = the call card). 'states' = distinct (error location, chain) per chunk".into(),
             bound: format!("families {:?} + {} resource cases", fams.iter().map(|f| format!("{}={}", f.name(), f.len())).collect::<Vec<_>>(), res_cases().len()),
             exhaustive: true,
             assumptions: vec!["errors raised inside library callbacks and host re-entry are excluded (frames created by run_function carry no call card)".into(), "injected cards that are not reached (dead branches) produce no error and are skipped".into()],
